@@ -102,6 +102,10 @@ def run(prop):
     finally:
         shutil.rmtree(root, ignore_errors=True)
     bad = []
+    from . import equiv_selftest
+    eb, nd, ns = equiv_selftest.run()
+    print(f'  SELFTEST equivalence canonicaliser: {nd} behaviour-changing pairs kept apart, {ns} refactoring pairs identified' + (f'; FAILURES: {eb}' if eb else ''))
+    bad.extend('equivalence canonicaliser: ' + x for x in eb)
     for name, verdict, detail in results:
         want = 'passed' if (name == 'unmodified-copy' or name in quiet_names) else 'violation'
         ok = verdict == want or verdict == 'skipped'
